@@ -348,22 +348,35 @@ def match_wildcard(name: Optional[str], wildcard: str) -> bool:
 
 
 def escape_json_string(s: str, escaped: bool = False) -> str:
-    if escaped:
-        s = s.replace('\\"', '"')
-    else:
-        s = s.replace('\\', '\\\\')
+    """
+    Escapes a string for a JSON text. If *escaped* is `True` the escape sequences
+    already present in the string are copied unchanged.
+    """
+    def escape_char(x: str) -> str:
+        if x in JSON_ESCAPED_CHARS:
+            return JSON_ESCAPED_CHARS[x]
+        elif 1 <= ord(x) <= 31 or 127 <= ord(x) <= 159:
+            return rf'\u{ord(x):04X}'
+        return x
 
-    s = s.replace('\"', '\\"').\
-        replace('\b', r'\b').\
-        replace('\r', r'\r').\
-        replace('\n', r'\n').\
-        replace('\t', r'\t').\
-        replace('\f', r'\f').\
-        replace('/', r'\/')
-    return ''.join(
-        rf'\u{ord(x):04X}' if 1 <= ord(x) <= 31 or 127 <= ord(x) <= 159 else x
-        for x in s
-    )
+    if not escaped:
+        return ''.join('\\\\' if x == '\\' else escape_char(x) for x in s)
+
+    chunks = []
+    k = 0
+    while k < len(s):
+        if s[k] == '\\' and k + 1 < len(s):
+            chunks.append(s[k:k + 2])  # an escape sequence, e.g. \\ or \/ or \" or \u
+            k += 2
+        else:
+            chunks.append(escape_char(s[k]))
+            k += 1
+    return ''.join(chunks)
+
+
+JSON_ESCAPED_CHARS = {
+    '"': '\\"', '\b': r'\b', '\r': r'\r', '\n': r'\n', '\t': r'\t', '\f': r'\f', '/': r'\/'
+}
 
 
 JSON_SIMPLE_ESCAPES = {
